@@ -24,6 +24,7 @@ import (
 	"github.com/risor-io/risor/errz"
 	ros "github.com/risor-io/risor/os"
 	"github.com/risor-io/risor/parser"
+	"github.com/risor-io/risor/vm"
 
 	"verifharness/ast"
 	"verifharness/run"
@@ -82,6 +83,18 @@ func apiWorker(req N) (resp N) {
 	stage = "inspect"
 	if res != nil {
 		_ = res.Inspect()
+	}
+	// one VM used for several evaluations under different kinds of context (with a deadline, none, cancellable):
+	// errors are fine, a panic is not
+	stage = "reuse"
+	if machine, merr := vm.NewEmpty(); merr == nil {
+		withVM := []risor.Option{risor.WithOS(vos), risor.WithConcurrency(), risor.WithVM(machine)}
+		_, _ = risor.Eval(ctx, src, withVM...)
+		_, _ = risor.Eval(context.Background(), "1 + 1", withVM...)
+		cctx, ccancel := context.WithCancel(context.Background())
+		_, _ = risor.Eval(cctx, "2 + 2", withVM...)
+		ccancel()
+		_, _ = risor.Eval(context.Background(), "3", withVM...)
 	}
 	// risor.Call with every name the program declares at top level (functions, other values, names that were
 	// never assigned) and with a name it does not declare: an error is fine, a panic is not
